@@ -113,7 +113,7 @@ class SimulateOde(DeterministicOde):
         self.add_func("transitionMean", self.get_TransitionMean)
         self.add_func("transitionVar", self.get_TransitionVar)
         self.add_func("pureOdeVector", self.get_pureOdeVector)
-        self.add_func("transitionJacobian", self.get_TransitionJacobian)
+        self.add_func("transitionJacobian", self.get_TransitionJacobian, oT="mat")
 
     def __repr__(self):
         return "SimulateOde" + self._get_model_str()
